@@ -5,7 +5,7 @@ VERIF = os.path.dirname(os.path.dirname(os.path.abspath(__file__)))
 ALL = ["C%02d" % i for i in range(1, 21)]
 CLAIMED = {
  "C01": dict(
-   text="Partial proof + exploration. Proved in Coq for every n: the judge (executable commutator closure) is sound, complete and total w.r.t. the inductive closure Cl (closure_strs_spec/total, via the orbit lemma); the classifier's census/name arithmetic (Model/Star.v) with the snapshot's census refuted and the repaired one proved for stars of single legs. Per run: every leg-length vector up to a bound through Morph/Classification vs the model, and the implementation's name vs the invariants (centre, per component |C|, |Z_C|, degree) of the verified closure on exhaustive small, structured and uniform collections, n<=6 quick / n<=8 thorough.",
+   text="Partial proof + exploration. Proved in Coq for every n: the judge (executable commutator closure) is sound, complete and total w.r.t. the inductive closure Cl (closure_strs_spec/total, via the orbit lemma); the classifier's census/name arithmetic (Model/Star.v) with the snapshot's census refuted and the repaired one proved for stars of single legs; closures of paths and of stars of single legs for every size; the algebra is the direct sum over the connected components of the anticommutation graph (C02_components_closure); the closure is the set of selection products and which selections occur depends only on the anticommutation pattern of the generators, so independent lists with the same pattern generate algebras of the same dimension on any numbers of qubits (C01_closure_by_selections, C01_graph_determines_size). Per run: every leg-length vector up to a bound through Morph/Classification vs the model, and the implementation's name vs the invariants (centre, per component |C|, |Z_C|, degree) of the verified closure on exhaustive small, structured and uniform collections, n<=6 quick / n<=8 thorough.",
    note="Not proved: canonical types B1/B2/B3 generate sp/so/su of the stated size and equal invariants imply isomorphism (classification theorem arXiv:2408.00081). MorphFactory is validated, not modelled. No axioms.",
    technique="Coq-verified closure oracle as judge + code-shaped census model; differential exploration of the classifier",
    design="6 C01"),
